@@ -182,6 +182,9 @@ def gen_history(rng: random.Random, profile: str = 'mixed') -> dict:
             g.op_advance()
             if r.random() < 0.75:
                 g.ops.append(['wake'])
+                if r.random() < 0.2:
+                    # a control operation right after the wake-up, at the very instant of the executions
+                    g.ops.append([r.choice(['resume', 'resume', 'pause', 'reset']), g.sel()])
         elif p < 0.55:
             g.ops.append(['wake'])
         elif p < 0.58:
